@@ -78,9 +78,12 @@ def numeric(ctx):
         ms = torch.jit.script(m) if rng.random() < 0.3 else None
         for N in [0, Lv // 2, Lv // 2 + 1, Lv - 1, Lv, Lv + 1, rng.randint(0, 3 * Lv + 5)]:
             for dt, tol in ((np.float64, 2e-5), (np.float32, 2e-3)):  # module buffers (window, filters) are float32
-                x = nprng.randn(N).astype(dt)
+                # loud, quiet (mean square below LOG_FLOOR_VALUE) and silent signals: both sides of the log floor
+                level = rng.choice(["loud", "loud", "quiet", "silence"])
+                x = (nprng.randn(N) * {"loud": 1.0, "quiet": 1e-3, "silence": 0.0}[level]).astype(dt)
                 ref = c.compute_full(x)
-                desc = dict(bank=name, rate=rate, L=Lv, S=Sv, D=c._dft_size, N=N, dtype=str(np.dtype(dt)), **{k: str(v) for k, v in kw.items()})
+                desc = dict(bank=name, rate=rate, L=Lv, S=Sv, D=c._dft_size, N=N, level=level, dtype=str(np.dtype(dt)), **{k: str(v) for k, v in kw.items()})
+                ctx.count("level:" + level)
                 ctx.case(desc, nontrivial=ref.shape[0] > 0)
                 ctx.count("module:" + name)
                 ctx.count("len:" + ("<L/2+1" if N < Lv // 2 + 1 else "<L" if N < Lv else ">=L"))
@@ -150,6 +153,7 @@ def numeric(ctx):
 def run(ctx):
     C.ensure_impl_path()
     stft.regenerate(ctx)
+    stft.regenerate_scalar(ctx)
     pr = C.proof_step(ctx)
     rng = ctx.rng
     # (i) framing of the torch port, captured at the FFT input
